@@ -104,6 +104,12 @@ CHECKS = {
         design="§7 C12",
         note="As C07. The linking catalogue is finite; the re-randomisation theorems carry the claim for the signature material.",
         technique="Coq theorems (re-randomisation bijections) + linking-test catalogue on honest presentations"),
+    "C06": dict(
+        text="PARTIAL. Theorems: the VB20 zero-knowledge membership sub-protocol is complete for every handle valid for the statement's registry value and, run honestly with a handle that is not valid for it, produces a recomputed commitment different from the hashed one for every non-zero challenge; special soundness with an explicit extractor (a valid witness for the extracted element, linked to the signed identifier's response); with C13 a refreshed handle is valid and a handle from before a revocation is not; with C14 the single-step public update across another identifier's revocation is valid and across the holder's own revocation returns the handle unchanged. That no efficiently computable handle exists for a revoked identifier is q-SDH, assumed. "
+             "Correspondence: issuer histories over 2..4 holders; after every operation every holder presents against the current registry value with 5 kinds of handles; ~4800 presentations (quick) compared with the verdict derived from the Coq registry model's trace.",
+        design="§7 C06",
+        note="Hypotheses: non-degeneracy (id+alpha <> 0, batch divisor <> 1, X,Y <> 0, non-zero challenge). The issuer publishes no batch coefficients, so public updates are exercised for single-identifier revocations.",
+        technique="Coq theorems (field tactic: completeness / invalid-witness / extractor of the membership proof, composed with the registry and update theorems) + differential correspondence of presentation verdicts over issuer histories"),
 }
 
 PLANNED = {
